@@ -80,6 +80,28 @@ M = [
  ("c03_coarse_drift_not_frozen", "C03", "rpylib/process/coupling/couplingmarkovchain.py",
   "                        fine_deterministic_path(times_input),\n                        coarse_deterministic_path(times_input),",
   "                        fine_deterministic_path(times_input),\n                        fine_deterministic_path(times_input),"),
+ ("c03nd_corner_order", "C03", "rpylib/process/coupling/couplinglevycopula.py",
+  "            for p in product([-1, 1], repeat=len(axis_coordinates)):", "            for p in product([1, -1], repeat=len(axis_coordinates)):"),
+ ("c03nd_coarse_matrix_not_frozen", "C03", "rpylib/process/coupling/couplinglevycopula.py",
+  "        self._diffusion_matrix_2h = self.fine_process._path_simulation.diffusion_matrix\n", ""),
+ ("c15nd_final_jump_zero", "C15", "rpylib/process/markovchain/markovchainlevycopula.py",
+  "            else np.array([jp[-1] for jp in jump_values])", "            else np.array([jp[0] for jp in jump_values])"),
+ ("c15nd_coupled_times_misaligned", "C15", "rpylib/process/coupling/helper.py",
+  "                aug_coarse_js = np.insert(\n                    aug_coarse_js,\n                    positions,\n                    np.where(positions == 0, 0, aug_coarse_js[..., positions - 1]),",
+  "                aug_coarse_js = np.insert(\n                    aug_coarse_js,\n                    positions,\n                    np.where(positions == 0, 0, aug_coarse_js[..., positions]),"),
+ ("c02nd_bucket_offset", "C02", "rpylib/distribution/variate/binarysearchtreeadapted.py",
+  "        positions = np.where(bucket_positions > 0)", "        positions = np.where(bucket_positions > 1)"),
+ ("c17_ntd_shared_buffer", "C17", "rpylib/product/underlying.py",
+  "        default_times = copy.copy(self._default_times_inf)", "        default_times = self._default_times_inf"),
+ ("c08_copula_peek", "C08", "rpylib/process/markovchain/markovchainlevycopula.py",
+  "        brownian_increments = self._brownian_increments.popleft()", "        brownian_increments = self._brownian_increments[0]"),
+ ("c16_libor_drift_sign", "C16", "rpylib/process/markovchain/markovchainsde.py",
+  "            drift_dt = (sde_drift_val + d_mu) * dt\n            zi += drift_dt + d_jump + d_diffusion\n            z_drift[:, i]",
+  "            drift_dt = (d_mu - sde_drift_val) * dt\n            zi += drift_dt + d_jump + d_diffusion\n            z_drift[:, i]"),
+ ("c07_discount_controls_twice", "C07", "rpylib/montecarlo/path.py",
+  "        self.payoff_control_variates *= df\n", "        self.payoff_control_variates *= df * df\n"),
+ ("c05_kurtosis_irrelevant_cl_wrong", "C05", "rpylib/montecarlo/statistic/statistic.py",
+  "        val = self._sum_cost / self.Nl\n", "        val = self._sum_cost / np.maximum(self.Nl - 1, 1)\n"),
  ("c16_euler_next_state", "C16", "rpylib/process/markovchain/markovchainsde.py",
   "            zi += drift_dt + d_jump + d_diffusion\n            z_drift[:, i]", "            zi += drift_dt + d_jump + 0.5 * d_diffusion\n            z_drift[:, i]"),
  ("c16_coarse_uses_fine_drift", "C16", "rpylib/process/coupling/couplingsde.py",
